@@ -4,6 +4,7 @@
    keyboard, timer chords included (TM.LoopDevice, proofs in
    TM.LoopDeviceLemmas; the extracted monitor runs on the transcripts of the
    REAL loop, clause C19.device). *)
+From TM Require MonitorsSilent.
 From TM Require Import Base Mapper Monitors Trace MapperInv MapperProps.
 From TM Require Loop LoopSpec LoopDevice LoopDeviceLemmas.
 
@@ -29,6 +30,32 @@ Theorem C19_bookkeeping_matches_device :
     forall k, In k (held_all is_action L h) <-> In k (held_of (state_of is_action L h)).
 Proof. intros a L h H. apply held_all_seteq. apply for_layout_ok_wf. exact H. Qed.
 Print Assumptions C19_bookkeeping_matches_device.
+
+(* The extracted step checker Monitors.check_step (applied by the mapper engine
+   to the outputs of the REAL mapper on every explored transition: specification
+   state before and after, keys physically held and keys held on the virtual
+   keyboard before the step, the input, the observed events; its clause K_C19 -
+   folding the observed events of the step from the keys held on the virtual
+   keyboard before it, a held key is pressed or a key that is up is released - is
+   reported as C19) never fires on the model: for EVERY classification, EVERY
+   accepted layout, EVERY history h and EVERY next input i, applied to the
+   model's own events for i it returns no clause at all, in particular not K_C19.
+   A run on which it fires: MonitorsSilent.check_step_fires. *)
+Theorem C19_checker_silent_on_model :
+  forall (is_action : key -> bool) (L : layout) (h : list input) (i : input),
+    for_layout_ok L = true ->
+    let chk := check_step is_action L (state_of is_action L h) (state_of is_action L (h ++ [i]))
+                 (phys_of h) (held_all is_action L h) i
+                 (fst (fst (mstep is_action L (state_of is_action L h) i))) in
+    chk = [] /\ ~ In K_C19 chk.
+Proof.
+  intros a L h i H. cbn zeta.
+  assert (Hwf : wf_layout L) by (apply for_layout_ok_wf; exact H).
+  repeat split.
+  - apply MonitorsSilent.check_step_silent. exact Hwf.
+  - apply MonitorsSilent.check_step_clause_silent. exact Hwf.
+Qed.
+Print Assumptions C19_checker_silent_on_model.
 
 (* Non-vacuity: the layout of finding 8.1 (two key-producing mappings sharing
    LEFTSHIFT) is accepted, and on the history A-down B-down C-down the model
